@@ -1,6 +1,38 @@
 /-
-Document convergence for CAUSAL histories: an operation may address a node (parent, anchor slot, target slot, key)
-that ANOTHER operation of the same history creates.  Everything lives in namespace `Orda.DCausal`.
+Document convergence for CAUSAL histories: an operation may address a node (parent object / array, anchor slot, target
+slot, key) that ANOTHER operation of the same history creates.  Everything lives in namespace `Orda.DCausal`.
+
+`Valid d L`: every operation of `L` is applicable (`DM.GoodD _ [x]`) at the moment it is applied.  `Valid d L ∧ Valid d L'`
+with `L.Perm L'` = two causal delivery orders of one history.  `Distinct L`: the operations are pairwise different
+operations of ONE history (`DCompat`: distinguishable timestamps, disjoint new identifiers — the clauses of `Good`, `GoodE`,
+`GoodD` for every pair of their elementary operations).
+
+RESULT.  **`causal_converge_partial`**: the statement asked for (`ASim` of the two results and equal key-sorted views) under
+ONE extra hypothesis, GLOBAL FRESHNESS `FreshIn d L`: no operation of the history creates a node whose identifier is in the
+table of the start document `d`.  The statement without it (`causal_converge` of the task) is NOT proved here; no
+counterexample to it is known (an exhaustive search over the valid permutations of two pools of eight operations with
+re-created identifiers found none), but the adjacent-exchange argument is FALSE without it: see `Anti` (§11) — a history
+with an operation that re-creates an identifier of an element of `d`; both orders valid and convergent, yet moving the first
+operation of one order to the front of the other gives an INVALID list (`Anti.not_valid`).  `Valid` itself did not need
+strengthening; `Distinct` does not mention `d`, so the clause could not go there.
+
+Contents
+* 0. `Valid`, `DCompat`, `Distinct`, `newIds`, `FreshIn`.
+* 1./2. applicability only looks at the abstraction: `opOK_asim`, `eok_asim`, `goodD_asim` (`GoodD` along `ASim`, given
+  freshness of the new identifiers — `Doc.find c = none` is NOT determined by the abstraction: tombstoned elements);
+  `asim_applyD` (an applicable operation respects `ASim`).
+* 3. `goodD_step` (`GoodD s (y :: l) → GoodD (applyD s y) l`), `wf_applyD`, `valid_wf`.
+* 4. `find_none_applyD`, `freshIn_step`: an operation only adds its own identifiers to the table.
+* 5. one more insert after a causal insert history: `acausal_snoc`, `acausal_last`, `cs_mem_foldIds`,
+  `acausal_transfer` (another history with the same order), `acausal_merge`.
+* 6. `goodD_pair`: two operations applicable in the SAME document that are different operations of one history are
+  applicable there in any order (`ordOK_ins_ins` for two inserts into one array).
+* 7. MONOTONICITY `goodD_mono`; `comm_asim_D`; `valid_transfer`; `bubble`; `causal_asim`.
+* 8. views: `viewOK_applyD`, `viewOK_valid`; **`causal_converge_partial`**.
+* 9. Boolean checks for concrete instances.  10. `Ex`: non-vacuity (a put of `{"a": []}`, an insert into the new array,
+  a put into the new object, an independent put; two valid orders; `GoodD` fails).  11. `Anti`.
+* 12. `freshIn_of_keys`: `FreshIn` from unique operation identifiers (no node of `d` carries the era / lamport / client of
+  an operation of the history).
 -/
 import Orda.Proofs.DocMixed
 import Orda.Proofs.DocRemoteInv
@@ -830,6 +862,322 @@ theorem causal_converge_partial {d : Doc} {L L' : List DOp} (hp : L.Perm L') (hw
       obtain ⟨a, ha, hea⟩ := List.mem_flatMap.mp he
       exact hke e (List.mem_flatMap.mpr ⟨a, mem_arrs.mpr (hp.mem_iff.mpr (mem_arrs.mp ha)), hea⟩))
   exact asim_view_canon hs (valid_wf L hwf hv) v1.keys v2.keys v1.bounded v2.bounded v1.root
+
+
+/-! ## 9. decidable sufficient conditions (for concrete instances) -/
+
+def dcompatB : DOp → DOp → Bool
+  | .o a, .o b => decide (a.ts.cmp b.ts ≠ .eq)
+  | .o a, .a b => (flat b).all fun e => (oIds a).all (fun c => !memB c (eIds e)) && decide (a.ts.cmp e.ts ≠ .eq)
+  | .a a, .o b => (flat a).all fun e => (oIds b).all (fun c => !memB c (eIds e)) && decide (b.ts.cmp e.ts ≠ .eq)
+  | .a a, .a b => (flat a).all fun e => (flat b).all fun e' => compatB e e' && decide (e.ts.cmp e'.ts ≠ .eq)
+
+theorem cross_of_all {x : ObjOp} {e : EOp} (h : (oIds x).all (fun c => !memB c (eIds e)) = true) :
+    ∀ c, c ∈ oIds x → c ∈ eIds e → False := by
+  intro c h1 h2
+  have := List.all_eq_true.mp h c h1
+  rw [memB_iff.mpr h2] at this
+  cases this
+
+theorem dcompat_of_B {x y : DOp} (h : dcompatB x y = true) : DCompat x y := by
+  cases x with
+  | o a =>
+    cases y with
+    | o b =>
+      have : ¬ a.ts.cmp b.ts = .eq := by simpa [dcompatB] using h
+      exact this
+    | a b =>
+      intro e he
+      have := List.all_eq_true.mp h e he
+      simp only [Bool.and_eq_true, decide_eq_true_eq] at this
+      exact ⟨cross_of_all this.1, this.2⟩
+  | a a =>
+    cases y with
+    | o b =>
+      intro e he
+      have := List.all_eq_true.mp h e he
+      simp only [Bool.and_eq_true, decide_eq_true_eq] at this
+      exact ⟨cross_of_all this.1, this.2⟩
+    | a b =>
+      intro e he e' he'
+      have := List.all_eq_true.mp (List.all_eq_true.mp h e he) e' he'
+      simp only [Bool.and_eq_true, decide_eq_true_eq] at this
+      exact ⟨compat_of_B this.1, this.2⟩
+
+theorem distinct_of_B {l : List DOp} (h : l.Pairwise (fun a b => dcompatB a b = true)) : Distinct l :=
+  h.imp dcompat_of_B
+
+theorem freshIn_of_all {d : Doc} {l : List DOp}
+    (h : (l.all fun x => (newIds x).all fun c => (d.find c).isNone) = true) : FreshIn d l := by
+  intro x hx c hc
+  have := List.all_eq_true.mp (List.all_eq_true.mp h x hx) c hc
+  simpa using this
+
+theorem valid_cons {d : Doc} {x : DOp} {l : List DOp} (g : GoodD d [x])
+    (h : (applyD d x).WF → Valid (applyD d x) l) : Valid d (x :: l) := ⟨g, h (wf_applyD g)⟩
+
+/-- a single applicable insert into an array whose order is produced by the causal history `M0` -/
+theorem goodD_single_ins {s : Doc} {p a ts : Ts} {vs : List JVal} (hwf : s.WF) (hok : EOK s (.ins p a ts vs))
+    (M0 : List AIns) (hM : slotIds s p = foldIds [] M0)
+    (hc : ACausal (M0 ++ [⟨a, newSlots (.ins p a ts vs)⟩])) : GoodD s [.a (.ins p a ts vs)] := by
+  refine DR.goodD_single_arr (x := .ins p a ts vs) hwf ?_ trivial
+  refine ⟨hwf, ?_, by simp [flat], ?_⟩
+  · intro e he
+    simp only [flat, List.mem_cons, List.mem_nil_iff, or_false] at he
+    subst he; exact hok
+  · intro q ⟨e, he, hi⟩
+    simp only [flat, List.mem_cons, List.mem_nil_iff, or_false] at he
+    subst he
+    by_cases e' : p = q
+    · subst e'
+      refine ⟨M0, hM, ?_⟩
+      intro l' hl'
+      have hf : (flat (.ins p a ts vs)).filterMap (insOnE p) = [⟨a, newSlots (.ins p a ts vs)⟩] := by
+        simp [flat, insOnE]
+      rw [hf] at hl'
+      rw [List.perm_singleton.mp hl']
+      exact hc
+    · simp [insOnE, e'] at hi
+
+/-! ## 10. non-vacuity: operations that address nodes created by other operations of the history -/
+
+namespace Ex
+
+def root : Ts := Ts.oldest
+def t1 : Ts := ⟨0, 1, "a", 0⟩
+def t2 : Ts := ⟨0, 2, "b", 0⟩
+def t3 : Ts := ⟨0, 3, "c", 0⟩
+def t4 : Ts := ⟨0, 2, "d", 0⟩
+/-- the object created by `x1` -/
+def objN : Ts := t1
+/-- the array created by `x1` inside that object -/
+def arrN : Ts := ⟨0, 1, "a", 1⟩
+
+/-- put `{"a": []}` under the key `o` of the root -/
+def x1 : DOp := .o (.put root "o" (.obj [("a", .arr [])]) t1)
+/-- insert into the NEW array -/
+def x2 : DOp := .a (.ins arrN Ts.oldest t2 [.num 1, .str "s"])
+/-- put into the NEW object -/
+def x3 : DOp := .o (.put objN "b" (.num 2) t3)
+/-- an independent put into the root -/
+def x4 : DOp := .o (.put root "z" (.num 9) t4)
+
+def L : List DOp := [x1, x2, x3, x4]
+def L' : List DOp := [x4, x1, x3, x2]
+
+theorem perm : L.Perm L' :=
+  ((List.reverse_perm [x2, x3, x4]).symm.cons x1).trans (List.Perm.swap x4 x1 _)
+
+theorem distinct : Distinct L := distinct_of_B (by decide)
+
+theorem freshIn : FreshIn Doc.empty L := freshIn_of_all (by decide)
+
+theorem causal_x2 : ACausal ([] ++ [⟨Ts.oldest, newSlots (.ins arrN Ts.oldest t2 [.num 1, .str "s"])⟩]) where
+  nonempty := by decide
+  samekey := by decide
+  nodup := by decide
+  notHead := by decide
+  distinct := by decide
+  anchored := by
+    intro i hi
+    match i, hi with
+    | 0, _ => left; rfl
+
+theorem put_ok {d : Doc} {p : Ts} {k : String} {v : JVal} {ts : Ts} (hwf : d.WF) (h1 : IsObj d p)
+    (h2 : ∃ ns c t', createNode p ts v = .ok (ns, c, t'))
+    (h3 : (ids (nodesOf (.put p k v ts))).all (fun c => (d.find c).isNone) = true) :
+    GoodD d [.o (.put p k v ts)] :=
+  DR.goodD_single_obj hwf ⟨h1, h2, DC.Ex.fresh_of_all h3⟩
+
+theorem valid : Valid Doc.empty L := by
+  refine valid_cons (put_ok wf_doc_empty ⟨_, _, _, rfl, rfl⟩ ⟨_, _, _, rfl⟩ (by decide)) fun w1 => ?_
+  refine valid_cons (goodD_single_ins w1 (eok_of_B (by decide)) [] (by decide) causal_x2) fun w2 => ?_
+  refine valid_cons (put_ok w2 ⟨_, _, _, rfl, rfl⟩ ⟨_, _, _, rfl⟩ (by decide)) fun w3 => ?_
+  refine valid_cons (put_ok w3 ⟨_, _, _, rfl, rfl⟩ ⟨_, _, _, rfl⟩ (by decide)) fun _ => trivial
+
+theorem valid' : Valid Doc.empty L' := by
+  refine valid_cons (put_ok wf_doc_empty ⟨_, _, _, rfl, rfl⟩ ⟨_, _, _, rfl⟩ (by decide)) fun w1 => ?_
+  refine valid_cons (put_ok w1 ⟨_, _, _, rfl, rfl⟩ ⟨_, _, _, rfl⟩ (by decide)) fun w2 => ?_
+  refine valid_cons (put_ok w2 ⟨_, _, _, rfl, rfl⟩ ⟨_, _, _, rfl⟩ (by decide)) fun w3 => ?_
+  refine valid_cons (goodD_single_ins w3 (eok_of_B (by decide)) [] (by decide) causal_x2) fun _ => trivial
+
+/-- `causal_converge_partial` instantiated: two different causal delivery orders of a history in which `x2` and `x3`
+    address nodes created by `x1` -/
+example : ASim (applyAllD Doc.empty L) (applyAllD Doc.empty L') :=
+  (causal_converge_partial perm wf_doc_empty distinct freshIn valid valid').1
+
+example : (applyAllD Doc.empty L).view.canon = (applyAllD Doc.empty L').view.canon :=
+  (causal_converge_partial perm wf_doc_empty distinct freshIn valid valid').2 viewOK_empty
+    (by
+      intro x hx
+      have : objs L = [.put root "o" (.obj [("a", .arr [])]) t1, .put objN "b" (.num 2) t3,
+        .put root "z" (.num 9) t4] := rfl
+      rw [this] at hx
+      simp only [List.mem_cons, List.mem_nil_iff, or_false] at hx
+      rcases hx with rfl | rfl | rfl <;> simp [OpKeysND, JKeysND, JKeysNDList, JKeysNDKvs])
+    (by
+      intro e he
+      have : (arrs L).flatMap flat = [.ins arrN Ts.oldest t2 [.num 1, .str "s"]] := rfl
+      rw [this] at he
+      simp only [List.mem_cons, List.mem_nil_iff, or_false] at he
+      subst he
+      simp [EKeysND, JKeysND, JKeysNDList])
+
+/-- … and what the two replicas show -/
+example : ((applyAllD Doc.empty L).view.canon ==
+    .obj [("o", .obj [("a", .arr [.num 1, .str "s"]), ("b", .num 2)]), ("z", .num 9)]) = true ∧
+    ((applyAllD Doc.empty L').view.canon == (applyAllD Doc.empty L).view.canon) = true := by decide
+
+/-- the new theorem is strictly stronger than `DM.mixed_converge`: `GoodD` FAILS for this history — `x3` (and `x2`) is not
+    applicable in the start document, its parent does not exist yet -/
+example : ¬ GoodD Doc.empty L := by
+  intro h
+  have hok : OpOK Doc.empty (.put objN "b" (.num 2) t3) := h.1.2.1 _ (mem_objs.mpr (by simp [L, x3]))
+  obtain ⟨n, m, s, h1, _⟩ := hok.1
+  have : Doc.empty.find objN = none := rfl
+  rw [this] at h1
+  cases h1
+
+end Ex
+
+/-! ## 11. why GLOBAL FRESHNESS: an identifier of the start document that an operation of the history creates AGAIN
+
+The start document holds the element `c0` under the key `k`.  `oz` creates a node with the identifier `c0` again: it is
+applicable only after `c0` has left the table (a put on `k` that wins over `c0` buries it).  Both histories below are
+valid and they converge, but the list obtained from the second one by moving `ox` (applicable at the start, first in the
+first history) to the front is NOT valid: after `ox` the put `oy` loses against the tombstone and `c0` stays in the
+table.  So without `FreshIn` validity is not preserved by the exchange of adjacent applicable operations on which the
+proof of `causal_converge_partial` rests (no counterexample to the convergence itself is known; an exhaustive search
+over the permutations of eight such operations found none). -/
+namespace Anti
+
+def c0 : Ts := ⟨0, 1, "a", 0⟩
+def d0 : Doc := applyOp Doc.empty (.put Ts.oldest "k" (.num 1) c0)
+def ox : DOp := .o (.del Ts.oldest "k" ⟨0, 5, "x", 0⟩)
+def oy : DOp := .o (.put Ts.oldest "k" (.num 2) ⟨0, 4, "y", 0⟩)
+def oy' : DOp := .o (.put Ts.oldest "k" (.num 3) ⟨0, 6, "w", 0⟩)
+/-- creates the identifier `c0` again -/
+def oz : DOp := .o (.put Ts.oldest "j" (.num 7) c0)
+
+theorem d0_wf : d0.WF :=
+  wf_op wf_doc_empty _ ⟨⟨_, _, _, rfl, rfl⟩, ⟨_, _, _, rfl⟩, DC.Ex.fresh_of_all (by decide)⟩
+
+theorem del_ok {d : Doc} {p : Ts} {k : String} {ts : Ts} (hwf : d.WF) (h : HasKey d p k) : GoodD d [.o (.del p k ts)] :=
+  DR.goodD_single_obj hwf h
+
+theorem valid1 : Valid d0 [ox, oy', oz, oy] := by
+  refine valid_cons (del_ok d0_wf ⟨_, _, _, _, rfl, rfl, rfl⟩) fun w1 => ?_
+  refine valid_cons (DCausal.Ex.put_ok w1 ⟨_, _, _, rfl, rfl⟩ ⟨_, _, _, rfl⟩ (by decide)) fun w2 => ?_
+  refine valid_cons (DCausal.Ex.put_ok w2 ⟨_, _, _, rfl, rfl⟩ ⟨_, _, _, rfl⟩ (by decide)) fun w3 => ?_
+  refine valid_cons (DCausal.Ex.put_ok w3 ⟨_, _, _, rfl, rfl⟩ ⟨_, _, _, rfl⟩ (by decide)) fun _ => trivial
+
+theorem valid2 : Valid d0 [oy, ox, oz, oy'] := by
+  refine valid_cons (DCausal.Ex.put_ok d0_wf ⟨_, _, _, rfl, rfl⟩ ⟨_, _, _, rfl⟩ (by decide)) fun w1 => ?_
+  refine valid_cons (del_ok w1 ⟨_, _, _, _, rfl, rfl, rfl⟩) fun w2 => ?_
+  refine valid_cons (DCausal.Ex.put_ok w2 ⟨_, _, _, rfl, rfl⟩ ⟨_, _, _, rfl⟩ (by decide)) fun w3 => ?_
+  refine valid_cons (DCausal.Ex.put_ok w3 ⟨_, _, _, rfl, rfl⟩ ⟨_, _, _, rfl⟩ (by decide)) fun _ => trivial
+
+theorem distinct : Distinct [ox, oy', oz, oy] := distinct_of_B (by decide)
+
+/-- `ox` is applicable at the start … -/
+theorem ox_ok : GoodD d0 [ox] := del_ok d0_wf ⟨_, _, _, _, rfl, rfl, rfl⟩
+
+/-- … but moved to the front of the second history it blocks `oz` -/
+theorem not_valid : ¬ Valid d0 [ox, oy, oz, oy'] := by
+  intro h
+  have hz : GoodD (applyD (applyD d0 ox) oy) [oz] := h.2.2.1
+  have hf := goodD_fresh hz oz (by simp) c0 (by decide)
+  have e : ((applyD (applyD d0 ox) oy).find c0).isSome = true := by decide
+  rw [hf] at e
+  cases e
+
+/-- the hypothesis of `causal_converge_partial` that fails here -/
+theorem not_freshIn : ¬ FreshIn d0 [ox, oy', oz, oy] := by
+  intro h
+  have hf := h oz (by simp) c0 (by decide)
+  have e : (d0.find c0).isSome = true := by decide
+  rw [hf] at e
+  cases e
+
+/-- the two valid histories converge all the same -/
+example : ((applyAllD d0 [ox, oy', oz, oy]).view.canon == .obj [("j", .num 7), ("k", .num 3)]) = true ∧
+    ((applyAllD d0 [oy, ox, oz, oy']).view.canon == (applyAllD d0 [ox, oy', oz, oy]).view.canon) = true := by decide
+
+end Anti
+
+/-! ## 12. global freshness from unique operation identifiers -/
+
+theorem eIds_key {e : EOp} {c : Ts} (h : c ∈ eIds e) : c.key = e.ts.key := by
+  cases e with
+  | ins p a ts vs =>
+    simp only [eIds, nodesE] at h
+    cases hc : createMany p ts vs with
+    | ok y =>
+      obtain ⟨ns, cs, t'⟩ := y
+      rw [hc] at h
+      exact (createMany_ids_key hc).1 c h
+    | err c' => rw [hc] at h; simp [ids] at h
+    | panic w => rw [hc] at h; simp [ids] at h
+  | del1 p tg t => simp [eIds, nodesE, ids] at h
+  | upd1 p tg t v =>
+    simp only [eIds, nodesE] at h
+    cases hc : createNode p t v with
+    | ok y =>
+      obtain ⟨ns, c', t'⟩ := y
+      rw [hc] at h
+      exact (createNode_ids_key hc).1 c h
+    | err c' => rw [hc] at h; simp [ids] at h
+    | panic w => rw [hc] at h; simp [ids] at h
+
+theorem flatDel_key (p : Ts) : ∀ (tgs : List Ts) (t : Ts), ∀ e ∈ flatDel p tgs t, e.ts.key = t.key
+  | [], _, e, he => by simp [flatDel] at he
+  | tg :: tgs, t, e, he => by
+    simp only [flatDel, List.mem_cons] at he
+    rcases he with rfl | he
+    · rfl
+    · exact flatDel_key p tgs t.nextDelim e he
+
+theorem flatUpd_key (p : Ts) : ∀ (tgs : List Ts) (vs : List JVal) (t : Ts), ∀ e ∈ flatUpd p tgs vs t, e.ts.key = t.key
+  | [], _, _, e, he => by simp [flatUpd] at he
+  | _ :: _, [], _, e, he => by simp [flatUpd] at he
+  | tg :: tgs, v :: vs, t, e, he => by
+    simp only [flatUpd, List.mem_cons] at he
+    rcases he with rfl | he
+    · rfl
+    · rw [flatUpd_key p tgs vs _ e he]
+      cases hc : createNode p t v with
+      | ok r =>
+        obtain ⟨ns, c, t'⟩ := r
+        exact (createNode_ids_key hc).2
+      | err c => rfl
+      | panic w => rfl
+
+theorem flat_key (a : AOp) : ∀ e ∈ flat a, e.ts.key = a.ts.key := by
+  cases a with
+  | ins p an ts vs => intro e he; simp only [flat, List.mem_cons, List.mem_nil_iff, or_false] at he; subst he; rfl
+  | del p tgs t => exact flatDel_key p tgs t
+  | upd p t tgs vs => exact flatUpd_key p tgs vs t
+
+/-- every new identifier of an operation carries the (era, lamport, client) of the operation's timestamp -/
+theorem newIds_key {x : DOp} {c : Ts} (h : c ∈ newIds x) : c.key = (DR.dts x).key := by
+  cases x with
+  | o o => exact nodesOf_key o h
+  | a a =>
+    obtain ⟨e, he, hce⟩ := List.mem_flatMap.mp h
+    rw [eIds_key hce, flat_key a e he]
+    rfl
+
+/-- GLOBAL FRESHNESS from unique operation identifiers: no node of the start document was created by an operation with
+    the (era, lamport, client) of an operation of the history -/
+theorem freshIn_of_keys {d : Doc} {l : List DOp} (h : ∀ n ∈ d.table, ∀ x ∈ l, n.c.key ≠ (DR.dts x).key) :
+    FreshIn d l := by
+  intro x hx c hc
+  cases hf : d.find c with
+  | none => rfl
+  | some n =>
+    exfalso
+    apply h n (find_some_mem hf) x hx
+    rw [find_some_c hf, newIds_key hc]
 
 
 end Orda.DCausal
